@@ -495,18 +495,139 @@ theorem tv_struct (c : Cfg) (fs : BFields) : ∀ (tape pre suf : List TTok) (dec
               | ok x => exact hrest' _ (by simp [hsl])
 end
 
-/-- root requests that fit a document (token-attribute structs are not covered: `tv_struct` is the
-loop without the `deserialize_u16` key hint). -/
+/-! ### token-attribute root structs (`#[jomini(token = …)]`): keys through `deserialize_u16` -/
+
+/-- which declared field a key names in a token-attribute struct: a token id by its declared token
+(`visit_u16`, the resolver is not consulted), a string by name, anything else is a type error. -/
+def whichTok (S : Sem) (decl : Fields) (k : BLeaf) : Res (Option Nat) :=
+  match k with
+  | .id n => .ok (decl.posTok n 0)
+  | k => match S.key k with
+    | .ok p => fieldOfPrim decl true p
+    | .error e => .error e
+
+def structStepSpecT (S : Sem) (rest : BFields) (decl : Fields) (slots : List (Option String)) (v : BNode)
+    (w : Res (Option Nat)) : Res String :=
+  match w with
+  | .error e => .error e
+  | .ok none => valStructG S rest decl true slots
+  | .ok (some i) =>
+    match slots[i]?, decl.get? i with
+    | some (some _), some (name, _, _) => .error (.duplicate name)
+    | some none, some (_, _, fty) =>
+      match nodeVia (valCoreG S v) fty with
+      | .error e => .error e
+      | .ok x => valStructG S rest decl true (slots.set i (some x))
+    | _, _ => .error .panic
+
+theorem valStructG_cons_true (S : Sem) (g : Nat) (k : BLeaf) (v : BNode) (rest : BFields) (decl : Fields)
+    (slots : List (Option String)) :
+    valStructG S (.cons g k v rest) decl true slots = structStepSpecT S rest decl slots v (whichTok S decl k) := by
+  cases k <;> (simp only [valStructG, structStepSpecT, whichTok]; rfl)
+
+theorem tapeFieldKey_whichT (c : Cfg) (decl : Fields) (k : BLeaf) :
+    tapeFieldKey c decl true k.ttok = whichTok (binSem c) decl k := by
+  cases k <;> simp [tapeFieldKey, whichTok, BLeaf.ttok, visitKey, binSem, leafPrim]
+
+/-- token-attribute struct fields: the value of a key that names a declared field fits that field's type. -/
+def fitsTokF (c : Cfg) : BFields → Fields → Bool
+  | .nil, _ => true
+  | .cons _ k v rest, decl =>
+    (match whichTok (binSem c) decl k with
+      | .ok (some i) => (match decl.get? i with | some (_, _, fty) => fitsN c v fty | none => true)
+      | _ => true) && fitsTokF c rest decl
+
+theorem tv_struct_tok (c : Cfg) : ∀ (m : Nat) (fs : BFields), fs.len = m →
+    ∀ (tape pre suf : List TTok) (decl : Fields) (f : Nat) (slots : List (Option String)),
+    tape = pre ++ tapeFields fs pre.length ++ suf → slots.length = decl.length → fitsTokF c fs decl = true →
+    ntF fs + tySize.fieldsSize decl + 1 ≤ f →
+    tStruct c tape f decl true pre.length (pre.length + ntF fs) slots = valStructG (binSem c) fs decl true slots := by
+  intro m
+  induction m with
+  | zero =>
+    intro fs hm tape pre suf decl f slots _ _ _ hb
+    obtain ⟨g, rfl⟩ : ∃ g, f = g + 1 := ⟨f - 1, by omega⟩
+    cases fs with
+    | nil => simp [tStruct, ntF, valStructG]
+    | cons gh k v rest => simp [BFields.len] at hm
+  | succ m ih =>
+    intro fs hm tape pre suf decl f slots htape hsl hfit hb
+    obtain ⟨g, rfl⟩ : ∃ g, f = g + 1 := ⟨f - 1, by omega⟩
+    cases fs with
+    | nil => simp [BFields.len] at hm
+    | cons gh k v rest =>
+      have hrm : rest.len = m := by simp [BFields.len] at hm; exact hm
+      simp only [fitsTokF, Bool.and_eq_true] at hfit
+      obtain ⟨t, tl, hhead, hafter⟩ := head_after v (pre.length + 1)
+      have hpos := ntN_pos v
+      have hsplit : tapeFields (.cons gh k v rest) pre.length =
+          k.ttok :: (tapeNode v (pre.length + 1) ++ tapeFields rest (pre.length + 1 + ntN v)) := by
+        simp [tapeFields, len_node]
+      have hk : tape[pre.length]? = some k.ttok := by rw [htape, hsplit]; simp
+      have hvt : tape[pre.length + 1]? = some t := by
+        rw [htape, hsplit, hhead]; exact get_mid1 pre suf _ _ _
+      have hrest := ih rest hrm tape (pre ++ k.ttok :: tapeNode v (pre.length + 1)) suf decl g
+      simp only [List.length_append, List.length_cons, len_node] at hrest
+      have hrest' : ∀ sl, sl.length = decl.length →
+          tStruct c tape g decl true (pre.length + 1 + ntN v) (pre.length + (1 + ntN v + ntF rest)) sl =
+            valStructG (binSem c) rest decl true sl := by
+        intro sl hs
+        have := hrest sl (by rw [htape, hsplit, show pre.length + 1 + ntN v = pre.length + (ntN v + 1) by omega]; simp) hs hfit.2
+          (by simp only [ntF] at hb; omega)
+        rw [show pre.length + (1 + ntN v + ntF rest) = pre.length + (ntN v + 1) + ntF rest by omega,
+            show pre.length + 1 + ntN v = pre.length + (ntN v + 1) by omega]
+        exact this
+      simp only [tStruct, ntF]
+      rw [if_pos (by omega), valStructG_cons_true]
+      simp only [hk, hvt, tapeFieldKey_whichT, hafter]
+      have hfit1 : ∀ i name tk fty, whichTok (binSem c) decl k = .ok (some i) → decl.get? i = some (name, tk, fty) →
+          fitsN c v fty = true := by
+        intro i name tk fty h1 h2
+        have := hfit.1
+        rw [h1] at this
+        simpa [h2] using this
+      cases hw : whichTok (binSem c) decl k with
+      | error e => simp [structStepSpecT]
+      | ok w =>
+        cases w with
+        | none => simp only [structStepSpecT]; exact hrest' slots hsl
+        | some i =>
+          simp only [structStepSpecT]
+          cases hsa : slots[i]? with
+          | none => rfl
+          | some a =>
+            cases hfb : decl.get? i with
+            | none => cases a <;> rfl
+            | some y =>
+              obtain ⟨name, tk, fty⟩ := y
+              cases a with
+              | some sv => rfl
+              | none =>
+                dsimp only
+                have hsz := (get?_size decl i name tk fty hfb).1
+                have hfv := hfit1 i name tk fty hw hfb
+                have hv : tVal c tape g fty (pre.length + 1) = nodeVia (valCoreG (binSem c) v) fty := by
+                  have := lift_ty c tape (pre ++ [k.ttok]).length v (by
+                    intro core f' hno hfc hbc
+                    exact tv_node c v tape (pre ++ [k.ttok]) (tapeFields rest (pre.length + 1 + ntN v) ++ suf) core f'
+                      (by rw [htape, hsplit]; simp) hno hfc hbc) fty g hfv (by simp only [ntF] at hb; omega)
+                  simpa using this
+                rw [hv]
+                cases hx : nodeVia (valCoreG (binSem c) v) fty with
+                | error e => rfl
+                | ok x => exact hrest' _ (by simp [hsl])
+
+/-- root requests that fit a document. -/
 def fitsRoot (c : Cfg) (ty : RootTy) (d : BDoc) : Bool :=
   match ty with
   | .plain (.map vt) => fitsMapF c d vt
   | .plain (.struct decl) => fitsStructF c d decl
-  | .tok _ => false
+  | .tok decl => fitsTokF c d decl
   | .plain _ => true
 
 /-- (C04_eq_spec, tape path, NESTED documents) for every binary document — nested objects and arrays
 to any depth, rgb values, ghost objects, empty containers, every scalar kind, duplicate keys — and
-every root request that fits it (maps, structs with partial / optional / typed fields, sequences, full
+every root request that fits it (maps, structs with partial / optional / typed fields, token-attribute structs, sequences, full
 capture of arrays, ignored values; `fitsRoot` excludes exactly the misfits where the Rust paths answer
 differently from one another), the tape deserializer model on the document's tape returns the reference
 value, for every resolver and strategy. -/
@@ -516,7 +637,13 @@ theorem C04_eq_spec_tape (c : Cfg) (ty : RootTy) (d : BDoc) (hfit : fitsRoot c t
   have htape : tapeFields d 0 = ([] : List TTok) ++ tapeFields d ([] : List TTok).length ++ [] := by simp
   unfold deTape valueOfBin valueOfG
   cases ty with
-  | tok fs => simp [fitsRoot] at hfit
+  | tok decl =>
+    simp only [fitsRoot] at hfit
+    have := tv_struct_tok c d.len d rfl (tapeFields d 0) [] [] decl (2 * (tapeFields d 0).length + rootSize (.tok decl) + 8)
+      (slotsInit decl) htape (by simp [slotsInit]) hfit (by simp [hlen, rootSize, tySize]; omega)
+    simp only [List.length_nil, Nat.zero_add, ← hlen] at this
+    dsimp only
+    exact this
   | plain t =>
     cases t with
     | map vt =>
